@@ -37,3 +37,28 @@ PROPS["C03"] = dict(
     assumptions=COMMON_ASSUMPTIONS + ["indexes >= 640 are not used (reference window is 1024 bits)",
                                       "states are counted per worker beyond the common core (a representation reached by two workers is counted twice)"],
 )
+
+
+def _c01(tier):
+    st = [simple("syn", "c01_load", args={"quick": ["--stage", "syn"], "thorough": ["--stage", "syn"]}, deadline={"quick": 300, "thorough": 2400}),
+          simple("xml", "c01_load", args={"quick": ["--stage", "xml"], "thorough": ["--stage", "xml"]}, deadline={"quick": 300, "thorough": 1200})]
+    if tier == "thorough":
+        st.append(simple("small2", "c01_load", args={"thorough": ["--stage", "small2"]}, deadline={"thorough": 2400}))
+    return st
+
+
+PROPS["C01"] = dict(
+    level_text="Exhaustive within bounds: every element of the product (generated synthetic universe + fixtures + corpus XML) x "
+               "(deviation-bounded filter/flag configurations) is loaded by the real library and the result is decided by an "
+               "independent re-implementation of every C01 clause over the public API, then by hwloc_topology_check(). "
+               "Snapshot and live-machine sources are covered by the C18 and C10 checks with the same oracle.",
+    technique="depth-1 explicit-state exploration of the real loader over an enumerated source x configuration product; independent well-formedness oracle",
+    design_ref="DESIGN.md 5 (C01), 2.3, 4",
+    stages=_c01,
+    explanation="Every generated synthetic description, hand-designed fixture and corpus XML file is loaded under every configuration "
+                "within the deviation bound; each successful load is checked clause by clause by wf.c (public API + reference set model) "
+                "and by the built-in checker with assertions captured in-process.",
+    bounds={"quick": "synthetic: <=2 intermediate levels x 10 type choices x arities 1-3 (+3 levels with arities 1-2, attached-NUMA, indexes and size families); configurations: deviation bound 1 (single flag, uniform filters, group setters, single (type,filter))",
+            "thorough": "synthetic: <=3 intermediate levels full product (+4 levels restricted); fixtures and U_small additionally with deviation bound 2 and all 256 flag words"},
+    assumptions=COMMON_ASSUMPTIONS + ["distinct states are counted per worker"],
+)
